@@ -123,7 +123,7 @@ func account(c *vlib.Ctx, r *recorder) {
 					eofs++
 				}
 			}
-		case "Block", "Hol", "Backlog", "Storm", "Heart":
+		case "Block", "Hol", "Backlog", "Storm", "Heart", "OpenCancel":
 			blocks++
 		}
 	}
@@ -231,6 +231,15 @@ func runStreams(c *vlib.Ctx) error {
 		jobs = append(jobs, job{cid: "b0", run: func(cid string) *recorder { return runFree(cid, in) }})
 	}
 	if c.Prop == "C24" {
+		for i, v := range []string{"pre", "stall", "stall"} {
+			in := opencIn{Mode: "openc", Variant: v, Reps: argInt(c, "openc", 60), Bufs: []int{5, 1, 2}[i], Seed: c.Seed*53 + int64(i)}
+			if v == "stall" {
+				in.Reps = in.Reps / 6
+			}
+			jobs = append(jobs, job{cid: fmt.Sprintf("c%d", i), run: func(cid string) *recorder { return runOpenCancel(cid, in) }})
+		}
+	}
+	if c.Prop == "C24" {
 		nst := argInt(c, "storms", 2)
 		for i := 0; i < nst; i++ {
 			in := stormIn{Mode: "storm", Rounds: argInt(c, "stormrounds", 120), Fan: 24, Seed: c.Seed*31 + int64(i)}
@@ -270,6 +279,10 @@ func replay(c *vlib.Ctx) error {
 		var in stormIn
 		vlib.Decode(inAny, &in)
 		r = runStorm(cid, in)
+	case "openc":
+		var in opencIn
+		vlib.Decode(inAny, &in)
+		r = runOpenCancel(cid, in)
 	case "timing":
 		var in timingIn
 		vlib.Decode(inAny, &in)
